@@ -89,6 +89,39 @@ def classify(msg, spans, gen_text_lines):
     return None
 
 
+def expand_leaves(gen_path, qual):
+    """The failing conjuncts of a function's postconditions, as reported by `verus --expand-errors` (the lines marked
+    with a cross that have no more deeply nested cross below them).  Used only to attribute a failure to the property
+    its clause speaks about; [] when nothing can be parsed (the caller then falls back to the whole clause)."""
+    try:
+        p = subprocess.run(["verus", "--edition=2024", os.path.basename(gen_path), "--verify-root", "--verify-function", qual, "--expand-errors", "--multiple-errors", "30"],
+                           cwd=os.path.dirname(gen_path), capture_output=True, text=True, timeout=1800)
+    except Exception:
+        return []
+    marked = []
+    for line in (p.stdout + "\n" + p.stderr).split("\n"):
+        if "\u2718" in line or "\u2714" in line:
+            body = line.lstrip("| ").rstrip()
+            depth = len(line) - len(line.lstrip("| "))
+            marked.append((depth, "\u2718" in line, body.replace("\u2718", "").replace("\u2714", "").strip()))
+    leaves = []
+    for i, (d, bad, txt) in enumerate(marked):
+        if not bad:
+            continue
+        nxt = marked[i + 1] if i + 1 < len(marked) else None
+        if nxt is not None and nxt[0] > d and any(b for dd, b, _ in marked[i + 1:] if dd > d):
+            # has a failing child further down (children are listed right below, more deeply indented)
+            j = i + 1
+            child_bad = False
+            while j < len(marked) and marked[j][0] > d:
+                child_bad = child_bad or marked[j][1]
+                j += 1
+            if child_bad:
+                continue
+        leaves.append(txt[:400])
+    return leaves
+
+
 class UnitResult:
     def __init__(self, unit):
         self.unit = unit
@@ -271,8 +304,15 @@ def _run_unit(unit, vacuity, extra_flags, use_cache, tag, force_stub):
             expr = t.get("text", "")[t.get("highlight_start", 1) - 1 : t.get("highlight_end", 1) - 1]
             if len(psp["text"]) > 1:
                 expr = " ".join(x.get("text", "").strip() for x in psp["text"])
+        ml_ = msg.lower()
         fail = {
             "class": cls,
+            # A failed assertion / invariant / closure contract / callee precondition is ASSUMED by the verifier for the
+            # rest of the function, so everything proved after it is proved under a possibly false hypothesis: such a
+            # failure cannot be attributed to one property by its wording (cli._topic_ok), it taints the whole function.
+            # A failed postcondition conjunct (nothing comes after it) or a possible overflow / out-of-bounds (what follows
+            # holds whenever execution gets there) does not.
+            "taints": cls == "proof-internal" or "closure" in ml_ or "precondition not satisfied" in ml_,
             "message": msg,
             "expr": " ".join(expr.split())[:300],
             "gen_line": psp.get("line_start"),
